@@ -15,6 +15,7 @@ import GormModel.Lemmas.SharedConfig
 import GormModel.Lemmas.StmtWait
 import GormModel.Lemmas.SharedStmt
 import GormModel.Lemmas.SharedState
+import GormModel.Lemmas.SharedAppend
 namespace Gorm
 open Gorm.SchemaCache
 
@@ -494,5 +495,85 @@ theorem C07_count_strip_current_tree :
 /-- non-vacuity: a reader that ran to completion did build from the handle's clauses -/
 example : ((Gorm.SharedStmt.run false (fun t => t == 0) (Gorm.SharedStmt.init [0, 1]) [0, 0, 1, 1, 0, 0]).ths 1).built = some [0, 1] := by decide
 
+
+
+/-! ### Round 5 — lists carried by the shared handle (append aliasing), gorm's own logger
+
+  A chain method called on a shared Session handle runs on the per-call instance `Statement.clone` made and APPENDS to the lists
+  that instance carries (`joins`, `Scopes`; the clause lists go through MergeClause).  Whether that append writes memory the
+  shared handle and every sibling instance read is decided by (1) the Go rule for append (Model.SliceAlias) and (2) whether
+  clone hands out a private exactly-sized copy (regenerated Gen.CloneFacts) or the chain method allocates itself
+  (regenerated Gen.SharedAppend). -/
+
+open Gorm.SliceAlias in
+/-- A chain that starts from clone's private exactly-sized copy leaves every slice that existed before — the shared handle's
+  list, every sibling instance's list — as it was: for every heap, list length / capacity, number of appended values and
+  growth policy. -/
+theorem C07_derived_append_leaves_shared (grow : Nat → Nat) (h : Heap) (s : Sl) (vs : List Nat) (t : Sl) (ht : t.arr < h.length) :
+    view (derive true grow h s vs).1 t = view h t := by
+  unfold view
+  rw [derive_copied_keeps_heap grow h s vs t.arr ht]
+
+open Gorm.SliceAlias in
+/-- Without the copy (`Joins: stmt.Joins`) and with spare capacity (len 3, cap 4 — three successive Joins calls): goroutine A
+  appends 7, goroutine B appends 9 through the same handle, and A's own list now ends in B's value. -/
+theorem C07_shared_append_counterexample :
+    let h0 : Heap := [[1, 2, 3, 0]]
+    let s : Sl := ⟨0, 3, 4⟩
+    let a := derive false (fun _ => 0) h0 s [7]
+    let b := derive false (fun _ => 0) a.1 s [9]
+    view a.1 a.2 = [1, 2, 3, 7] ∧ view b.1 a.2 = [1, 2, 3, 9] ∧ view b.1 b.2 = [1, 2, 3, 9] := by decide
+
+open Gorm.SliceAlias in
+/-- … and with an exactly-sized shared list (len = cap) even the shared variant is harmless: the reason handles with 0, 1, 2, 4, 8
+  one-by-one entries hide the fault (non-vacuity of the capacity dimension). -/
+example : let h0 : Heap := [[1, 2, 3, 4]]
+    let s : Sl := ⟨0, 4, 4⟩
+    let a := derive false (fun _ => 0) h0 s [7]
+    let b := derive false (fun _ => 0) a.1 s [9]
+    view b.1 a.2 = [1, 2, 3, 4, 7] := by decide
+
+open Gorm.Gen in
+/-- OBLIGATION (current tree): every `X = append(X, …)` of a chain method (chainable_api.go) on a slice field of Statement either
+  extends a list the same call allocated, or a field Statement.clone copies with make+copy. -/
+theorem C07_chain_appends_private :
+    ∀ s ∈ stmtAppendSites, s.file = "chainable_api.go" → c07AppendSafe s = true := by decide
+
+open Gorm.Gen in
+/-- the fields the chain methods append to in place are exactly Joins and scopes, and clone copies both (and Vars) -/
+theorem C07_clone_copies_appended_lists :
+    ((stmtAppendSites.filter (fun s => s.file == "chainable_api.go" && !s.fresh)).map (·.field)).eraseDups = ["Joins", "scopes"]
+      ∧ c07CloneCopies "Joins" = true ∧ c07CloneCopies "scopes" = true ∧ c07CloneCopies "Vars" = true
+      ∧ ¬ ("Joins" ∈ cloneLiteral.map (·.1)) ∧ ¬ ("scopes" ∈ cloneLiteral.map (·.1)) := by decide
+
+open Gorm.Gen in
+/-- outside the chain methods the only append to a list clone does NOT copy is Save's `Selects = append(Selects, "*")`, under the
+  guard `!selectedUpdate` (= the list is empty) -/
+theorem C07_unsafe_append_sites_pinned :
+    (stmtAppendSites.filter (fun s => !c07AppendSafe s)).map (fun s => (s.fn, s.field, s.conds))
+      = [("DB.Save", "Selects", ["!selectedUpdate"])] := by decide
+
+open Gorm.Gen in
+theorem C07_appended_fields_are_statement_slices : ∀ s ∈ stmtAppendSites, s.field ∈ stmtSliceFields := by decide
+
+open Gorm.Gen in
+/-- package clause: every append inside a MergeClause extends a local the method made with make(…) (a private copy of the
+  handle's clause list), and the clause lists that grow by merging have a MergeClause -/
+theorem C07_merge_appends_on_private_copy :
+    (∀ m ∈ mergeAppendSites, m.2.2 = true) ∧ (∀ t ∈ ["Where", "OrderBy", "GroupBy", "Returning", "Set"], t ∈ mergeClauseTypes) := by decide
+
+open Gorm.Gen in
+/-- the mode the tree is in (what suite `extfork` ties at run time: cap == len and a private array on every clone) -/
+theorem C07_shared_append_current_tree : c07ChainAppendsCopied = true := by decide
+
+open Gorm.Gen in
+/-- package logger: no method of `*logger` writes a field of its receiver (the receiver is the logger every goroutine of the handle —
+  for logger.Default: of the process — reads in Trace); the only receiver writes are traceRecorder.Trace's, on the private
+  recorder `traceRecorder.New` returns -/
+theorem C07_logger_methods_keep_receiver :
+    (∀ w ∈ loggerRecvWrites, w.1 = "traceRecorder" ∧ w.2.1 = "Trace") ∧ "logger.LogMode" ∈ loggerPtrMethods ∧ "logger.Trace" ∈ loggerPtrMethods := by decide
+
+open Gorm.Gen in
+example : (stmtAppendSites.filter (fun s => s.file == "chainable_api.go")).length ≥ 3 ∧ mergeAppendSites.length ≥ 3 := by decide
 
 end Gorm
